@@ -107,7 +107,7 @@ class Monitors:
             chk.count("scopes_checked", scopes)
             chk.count("subtemplate_ranges_checked", subs)
             if problems:
-                chk.witness("C17/compiled-program-malformed", {"problems": problems[:5], "case": self.current})
+                chk.witness("C17/compiled-program-malformed", dict(self.current or {}, problems=problems[:5]))
             return tpl
 
         def execute(interp, template):
@@ -121,7 +121,7 @@ class Monitors:
             if interp.scopeStack or after != before:
                 chk.witness("C17/interpreter-stack-imbalance", {
                     "scope_stack_depth_at_exit": len(interp.scopeStack),
-                    "local_repeat_stack_depth_entry": before, "exit": after, "case": self.current})
+                    "local_repeat_stack_depth_entry": before, "exit": after, **(self.current or {})})
 
         simpleTAL.compileHTMLTemplate = compile_html
         simpleTAL.TemplateInterpreter.execute = execute
